@@ -13,8 +13,12 @@ class Tap:
 
     def rows(self):
         out = []
+        import os
+        if os.environ.get("VERIF_NO_TAP") == "1":       # test switch: behave as if the library's draws were not recognisable
+            return out
         for unit, scale in self.blocks:
-            u = np.atleast_2d(unit)
+            u = np.asarray(unit)
+            u = u.reshape(1, -1) if u.ndim <= 1 else u.reshape(-1, u.shape[-1])       # any leading layout: one row per draw along the last axis
             for r in u:
                 out.append((r, scale))
         return out
